@@ -40,7 +40,8 @@ CONSTANTS
   JoinTblPool,                     \* table references on the right of a JOIN
   MaxItems, MaxJoins, MaxLeaves, MaxGroup, MaxOrder, MaxRows, MaxVals, MaxSet, MaxDefs,
   \* the machine
-  Stmts,                           \* statements the machine may pick
+  Slices,                          \* which slices of the statement universe (SliceNames) the machine picks from
+  Stmts,                           \* the slice "given": an explicit set of statements
   Vocab, Vocab2,                   \* junk vocabulary for the first / for any further junk token
   MaxJunk,                         \* junk budget
   MaxTail,                         \* at most this many tokens are emitted after the last junk token
@@ -273,80 +274,88 @@ Toks(s, f) ==
 
 BaseFrom  == <<Tbl(BaseTable, "")>>
 BaseItems == <<Item(Star, "")>>
-SimpleSel(items)     == Sel(items, BaseFrom, <<>>, <<>>, <<>>, <<>>, <<>>, <<>>)
-WhereSel(c)          == Sel(BaseItems, BaseFrom, <<>>, <<c>>, <<>>, <<>>, <<>>, <<>>)
+NoC == <<>>
+SimpleSel(items) == Sel(items, BaseFrom, NoC, NoC, NoC, NoC, NoC, NoC)
+WhereSel(c)      == Sel(BaseItems, BaseFrom, NoC, <<c>>, NoC, NoC, NoC, NoC)
 
-Conds == LeafSet \cup CondsOver(LeafPool, 1, MaxLeaves)
-
-ItemExprs == ColRefs \cup Lits \cup LeafSet \cup {CountOf(Star)} \cup {CountOf(c) : c \in ColRefs} \cup {AvgOf(c) : c \in ColRefs}
-
-SelItemSlice ==
-     {SimpleSel(<<Item(e, al)>>) : e \in ItemExprs \cup CondsOver(LeafPool, 2, MaxLeaves), al \in {""} \cup Aliases}
-  \cup {SimpleSel(il) : il \in SeqsOf(ItemPool, 1, MaxItems)}
-  \cup {Sel(il, <<>>, <<>>, <<>>, <<>>, <<>>, <<>>, <<>>) : il \in SeqsOf(ItemPool, 1, 2)}
-  \cup {SimpleSel(BaseItems)}
-
-JoinSet == {JoinOf(jt, tb, on) : jt \in JoinTypes, tb \in JoinTblPool, on \in CondPool}
-SelFromSlice ==
-     {Sel(BaseItems, <<tr>>, js, <<>>, <<>>, <<>>, <<>>, <<>>) : tr \in TblRefs, js \in SeqsOf(JoinSet, 0, MaxJoins)}
-  \cup {Sel(BaseItems, BaseFrom, <<JoinOf(jt, tb, on)>>, <<>>, <<>>, <<>>, <<>>, <<>>) :
-           jt \in JoinTypes, tb \in TblRefs, on \in CondsOver(LeafPool, 1, MaxLeaves)}
-
-SelWhereSlice == {WhereSel(c) : c \in Conds}
-
+Trees(lo)  == CondsOver(LeafPool, lo, MaxLeaves)
+ItemExprs  == ColRefs \cup Lits \cup {CountOf(Star)} \cup {CountOf(c) : c \in ColRefs} \cup {AvgOf(c) : c \in ColRefs}
+AliasOpts  == {""} \cup Aliases
+JoinSet    == {JoinOf(jt, tb, on) : jt \in JoinTypes, tb \in JoinTblPool, on \in CondPool}
 GroupLists == SeqsOf(ColPool, 1, MaxGroup)
-SelGroupSlice ==
-     {Sel(<<Item(CountOf(Star), "")>>, BaseFrom, <<>>, <<>>, g, <<>>, <<>>, <<>>) : g \in GroupLists}
-  \cup {Sel([i \in 1..Len(g) |-> Item(g[i], "")] \o <<Item(CountOf(Star), "")>>, BaseFrom, <<>>, <<>>, g, <<>>, <<>>, <<>>) :
-           g \in GroupLists}
-  \cup {Sel(<<Item(g[1], al), Item(AvgOf(c), "")>>, BaseFrom, <<>>, <<>>, <<Col("", al)>> \o Tail(g), <<>>, <<>>, <<>>) :
-           g \in GroupLists, al \in Aliases, c \in ColPool}
-
 OrderLists == SeqsOf({Ord(c, d) : c \in ColPool, d \in Dirs}, 1, MaxOrder)
-SelOrderSlice == {Sel(BaseItems, BaseFrom, <<>>, <<>>, <<>>, o, <<>>, <<>>) : o \in OrderLists}
-
-SelLimitSlice == {Sel(BaseItems, BaseFrom, <<>>, <<>>, <<>>, o, l, f) :
-                     o \in {<<>>, <<Ord(Col("", CHOOSE c \in Cols : TRUE), "DESC")>>}, l \in Opt(LimVals), f \in Opt(LimVals)}
+CountStar  == <<Item(CountOf(Star), "")>>
 
 \* a few values of every clause, all combinations
 ComboCond   == CHOOSE c \in CondPool : c.k = "cmp"
 ComboGroup  == CHOOSE g \in SeqsOf(ColPool, 2, 2) : g[1] # g[2]
 ComboCol    == CHOOSE c \in ColPool : c.q # ""
 ComboLim    == CHOOSE n \in LimVals : TRUE
-ComboItems  == {<<Item(CountOf(Star), "")>>} \cup {<<it>> : it \in ItemPool}
+ComboItems  == {CountStar} \cup {<<it>> : it \in ItemPool}
 ComboJoins  == SeqsOf({JoinOf(jt, tb, ComboCond) : jt \in {"INNER", "LEFT"}, tb \in JoinTblPool}, 0, 1)
-SelComboSlice ==
-  {Sel(il, <<tr>>, js, w, g, o, l, f) :
-      il \in ComboItems, tr \in {Tbl(BaseTable, al) : al \in {""} \cup Aliases}, js \in ComboJoins,
-      w \in Opt(CondPool), g \in {<<>>, ComboGroup}, o \in {<<>>, <<Ord(ComboCol, "ASC"), Ord(ComboCol, "DESC")>>},
-      l \in Opt({ComboLim}), f \in Opt({ComboLim})}
-
-Selects == SelItemSlice \cup SelFromSlice \cup SelWhereSlice \cup SelGroupSlice \cup SelOrderSlice
-           \cup SelLimitSlice \cup SelComboSlice
 
 \* rows of one INSERT have the same width; a column list, when present, has that width too
 Rows(L, w, lo, hi) == SeqsOf([1..w -> L], lo, hi)
 FixedCols(w) == CHOOSE f \in [1..w -> Cols] : \A i, j \in 1..w : i # j => f[i] # f[j]
 FixedRow(w)  == [i \in 1..w |-> CHOOSE v \in LitPool : TRUE]
-Inserts ==
-  UNION { {Ins(tb, cols, <<FixedRow(w)>>) : tb \in Tables, cols \in [1..w -> Cols]}
-          \cup {Ins(BaseTable, cols, rows) : cols \in {<<>>, FixedCols(w)},
-                                            rows \in Rows(Lits, w, 1, 1) \cup Rows(LitPool, w, 1, MaxRows)} : w \in 1..MaxVals }
-
-Updates ==
-     {Upd(tb, <<Asg(c, v)>>, w) : tb \in Tables, c \in Cols, v \in Lits, w \in Opt(CondPool)}
-  \cup {Upd(BaseTable, set, w) : set \in SeqsOf({Asg(c, v) : c \in Cols, v \in LitPool}, 1, MaxSet), w \in Opt(CondPool)}
-  \cup {Upd(BaseTable, <<Asg(CHOOSE x \in Cols : TRUE, CHOOSE v \in LitPool : TRUE)>>, <<cd>>) : cd \in Conds}
-
-Deletes == {Del(tb, <<>>) : tb \in Tables} \cup {Del(BaseTable, <<c>>) : c \in Conds}
-
+FixedAsg     == <<Asg(CHOOSE x \in Cols : TRUE, CHOOSE v \in LitPool : TRUE)>>
 \* column names are taken in a fixed order; what varies is the number of columns and their types
 DefNames == CHOOSE f \in [1..MaxDefs -> Cols \cup Aliases \cup Tables \cup Dbs] : \A i, j \in 1..MaxDefs : i # j => f[i] # f[j]
-CreateTables == {CreT(tb, [i \in 1..Len(tys) |-> Def(DefNames[i], tys[i])]) : tb \in Tables, tys \in SeqsOf(Types, 1, MaxDefs)}
 
-Others == {CreD(d) : d \in Dbs} \cup {UseD(d) : d \in Dbs} \cup {ShowD}
+SliceNames == {"sel_item_expr", "sel_item_leaf", "sel_item_tree", "sel_items", "sel_nofrom", "sel_star",
+               "sel_from", "sel_on", "sel_where_leaf", "sel_where_tree",
+               "sel_group_count", "sel_group_cols", "sel_group_alias", "sel_order", "sel_limit", "sel_combo",
+               "ins_cols", "ins_row", "ins_rows", "upd_one", "upd_list", "upd_where_leaf", "upd_where_tree",
+               "del_all", "del_leaf", "del_tree", "create_table", "create_database", "use", "show", "given"}
 
-AllStatements == {s \in Selects \cup Inserts \cup Updates \cup Deletes \cup CreateTables \cup Others : StmtWF(s)}
+\* (an operator with a parameter, so that TLC builds a slice only when the configuration uses it)
+Slice(name) ==
+  CASE name = "sel_item_expr"  -> {SimpleSel(<<Item(e, al)>>) : e \in ItemExprs, al \in AliasOpts}
+    [] name = "sel_item_leaf"  -> {SimpleSel(<<Item(e, al)>>) : e \in LeafSet, al \in AliasOpts}
+    [] name = "sel_item_tree"  -> {SimpleSel(<<Item(e, al)>>) : e \in Trees(2), al \in AliasOpts}
+    [] name = "sel_items"      -> {SimpleSel(il) : il \in SeqsOf(ItemPool, 1, MaxItems)}
+    [] name = "sel_nofrom"     -> {Sel(il, NoC, NoC, NoC, NoC, NoC, NoC, NoC) : il \in SeqsOf(ItemPool, 1, 2)}
+    [] name = "sel_star"       -> {SimpleSel(BaseItems)}
+    [] name = "sel_from"       -> {Sel(BaseItems, <<tr>>, js, NoC, NoC, NoC, NoC, NoC) :
+                                      tr \in TblRefs, js \in SeqsOf(JoinSet, 0, MaxJoins)}
+    [] name = "sel_on"         -> {Sel(BaseItems, BaseFrom, <<JoinOf(jt, tb, on)>>, NoC, NoC, NoC, NoC, NoC) :
+                                      jt \in JoinTypes, tb \in JoinTblPool, on \in Trees(1)}
+    [] name = "sel_where_leaf" -> {WhereSel(c) : c \in LeafSet}
+    [] name = "sel_where_tree" -> {WhereSel(c) : c \in Trees(2)}
+    [] name = "sel_group_count" -> {Sel(CountStar, BaseFrom, NoC, NoC, g, NoC, NoC, NoC) : g \in GroupLists}
+    [] name = "sel_group_cols" -> {Sel([i \in 1..Len(g) |-> Item(g[i], "")] \o CountStar, BaseFrom, NoC, NoC, g, NoC, NoC, NoC) :
+                                      g \in GroupLists}
+    [] name = "sel_group_alias" -> {Sel(<<Item(g[1], al), Item(AvgOf(c), "")>>, BaseFrom, NoC, NoC,
+                                        <<Col("", al)>> \o Tail(g), NoC, NoC, NoC) : g \in GroupLists, al \in Aliases, c \in ColPool}
+    [] name = "sel_order"      -> {Sel(BaseItems, BaseFrom, NoC, NoC, NoC, o, NoC, NoC) : o \in OrderLists}
+    [] name = "sel_limit"      -> {Sel(BaseItems, BaseFrom, NoC, NoC, NoC, o, l, f) :
+                                      o \in {NoC, <<Ord(ComboCol, "DESC")>>}, l \in Opt(LimVals), f \in Opt(LimVals)}
+    [] name = "sel_combo"      -> {Sel(il, <<tr>>, js, w, g, o, l, f) :
+                                      il \in ComboItems, tr \in {Tbl(BaseTable, al) : al \in AliasOpts}, js \in ComboJoins,
+                                      w \in Opt(CondPool), g \in {NoC, ComboGroup},
+                                      o \in {NoC, <<Ord(ComboCol, "ASC"), Ord(ComboCol, "DESC")>>},
+                                      l \in Opt({ComboLim}), f \in Opt({ComboLim})}
+    [] name = "ins_cols"       -> UNION { {Ins(tb, cols, <<FixedRow(w)>>) : tb \in Tables, cols \in [1..w -> Cols]} : w \in 1..MaxVals }
+    [] name = "ins_row"        -> UNION { {Ins(BaseTable, cols, rows) : cols \in {NoC, FixedCols(w)}, rows \in Rows(Lits, w, 1, 1)} :
+                                          w \in 1..MaxVals }
+    [] name = "ins_rows"       -> UNION { {Ins(BaseTable, cols, rows) : cols \in {NoC, FixedCols(w)}, rows \in Rows(LitPool, w, 1, MaxRows)} :
+                                          w \in 1..MaxVals }
+    [] name = "upd_one"        -> {Upd(tb, <<Asg(c, v)>>, w) : tb \in Tables, c \in Cols, v \in Lits, w \in Opt(CondPool)}
+    [] name = "upd_list"       -> {Upd(BaseTable, set, w) : set \in SeqsOf({Asg(c, v) : c \in Cols, v \in LitPool}, 1, MaxSet),
+                                                           w \in Opt(CondPool)}
+    [] name = "upd_where_leaf" -> {Upd(BaseTable, FixedAsg, <<c>>) : c \in LeafSet}
+    [] name = "upd_where_tree" -> {Upd(BaseTable, FixedAsg, <<c>>) : c \in Trees(2)}
+    [] name = "del_all"        -> {Del(tb, NoC) : tb \in Tables}
+    [] name = "del_leaf"       -> {Del(BaseTable, <<c>>) : c \in LeafSet}
+    [] name = "del_tree"       -> {Del(BaseTable, <<c>>) : c \in Trees(2)}
+    [] name = "create_table"   -> {CreT(tb, [i \in 1..Len(tys) |-> Def(DefNames[i], tys[i])]) : tb \in Tables, tys \in SeqsOf(Types, 1, MaxDefs)}
+    [] name = "create_database" -> {CreD(d) : d \in Dbs}
+    [] name = "use"            -> {UseD(d) : d \in Dbs}
+    [] name = "show"           -> {ShowD}
+    [] name = "given"          -> Stmts
+
+\* the universe a configuration works with
+Universe == UNION {{s \in Slice(n) : StmtWF(s)} : n \in Slices}
 
 \* C10 counts these: a statement that exercises an optional construct or a boolean tree
 HasOptional(s) == \E i \in DOMAIN Toks(s, "LO") : Toks(s, "LO")[i].o \in {"kw", "legacy"}
@@ -361,7 +370,8 @@ NonTrivial(s) == HasOptional(s) \/ HasTree(s)
 -----------------------------------------------------------------------------
 (* The machine                                                             *)
 
-Pick == \E s \in Stmts : \E f \in Forms(s) :
+Pick == \E n \in Slices : \E s \in Slice(n) : \E f \in Forms(s) :
+           /\ StmtWF(s)
            /\ ast = s /\ form = f /\ rest = Toks(s, f)
            /\ toks = <<>> /\ junk = 0 /\ tail = 0
 
@@ -408,7 +418,7 @@ Spec == Pick /\ [][Next]_vars
 
 TokenOK(tk) == /\ tk.t \in {"KW", "P", "IDENT", "INT", "STR", "RAW", "LEX"}
                /\ tk.o \in {"", "kw", "term", "legacy"}
-TypeOK == /\ ast \in Stmts /\ form \in Forms(ast)
+TypeOK == /\ ast.k \in StmtKinds /\ StmtWF(ast) /\ form \in Forms(ast)
           /\ \A i \in DOMAIN toks : TokenOK(toks[i])
           /\ \A i \in DOMAIN rest : TokenOK(rest[i])
           /\ junk \in 0..MaxJunk
